@@ -129,7 +129,7 @@ class Diagonal(ArrayExpr):
             local_k = -local_r_start if local_r_start > 0 else local_c_start
             kdiag_row_end = min(nrows, ncols - local_k)
             kdiag_len = kdiag_row_end - local_r_start
-            kdiag_chunks += (kdiag_len,)
+            kdiag_chunks += (int(kdiag_len),)
 
             kdiag_r_start = kdiag_row_end + row_starts[curr_I]
             kdiag_c_start = min(ncols, nrows + local_k) + col_starts[curr_J]
